@@ -9,6 +9,23 @@ import (
 // and returns the outputs that differ from the sequential run.
 func C20FreeRun(g, rounds int) []string {
 	ops := c20ops()
+	// a first concurrent round before anything was used in this process (lazily built state is then built concurrently);
+	// its outputs are compared once the sequential ones are known
+	cold := make([]string, g)
+	{
+		var wg sync.WaitGroup
+		start := make(chan struct{})
+		for t := 0; t < g; t++ {
+			wg.Add(1)
+			go func(t int) {
+				defer wg.Done()
+				<-start
+				cold[t] = ops[t%len(ops)].run(t)
+			}(t)
+		}
+		close(start)
+		wg.Wait()
+	}
 	seq := map[string]string{}
 	for _, o := range ops {
 		for ue := 0; ue < g; ue++ {
@@ -17,6 +34,11 @@ func C20FreeRun(g, rounds int) []string {
 	}
 	var mu sync.Mutex
 	var mism []string
+	for t := 0; t < g; t++ {
+		if o := ops[t%len(ops)]; cold[t] != seq[fmt.Sprint(o.name, t)] {
+			mism = append(mism, fmt.Sprintf("first (cold) round goroutine %d %s: %s, alone %s", t, o.name, cold[t], seq[fmt.Sprint(o.name, t)]))
+		}
+	}
 	for r := 0; r < rounds; r++ {
 		var wg sync.WaitGroup
 		start := make(chan struct{})
